@@ -253,6 +253,24 @@ CHECKS["C05"] = {
     "level_note": "Widening/narrowing soundness clauses (result contains the arguments) are checked at operator level by C03/C04/C08.",
 }
 
+CHECKS["C11"] = {
+    "level": "model_checking",
+    "technique": "exhaustive enumeration of small CrabIR programs with assertions; explicit-state co-reachability (backward fixpoint over the explored concrete graph) confronted with the real necessary_preconditions_fixpoint_iterator, in error mode and good-final-state mode, with and without forward invariants",
+    "design_ref": "DESIGN.md §2 C11",
+    "jobs": [{"bin": "e2_prog", "args": ["--family", "num", "--alpha", "0"], "deadline": {"quick": 300, "thorough": 2400}},
+             {"bin": "e2_prog", "args": ["--family", "num", "--alpha", "2", "--maxn", "2", "--second", "1"], "deadline": {"quick": 300, "thorough": 1200}}],
+    "rule": ("job 1: the C01 program space (n<=3 blocks, 9-statement core alphabet + 3 assertions, all edge sets with an exit block); job 2: n<=2 "
+             "with the 24-statement alphabet (adds *2, -1, disequalities, equalities, y:=1, y:=0, /2, %2, &1, >>1, x*y, select, negation, "
+             "unreachable) and every two-statement block. For each program the concrete graph over the value box is built from every (block, "
+             "state) root and the sets 'can go on to violate an assertion' / 'can reach the exit in a final state satisfying F' (F in {true, x<=0, "
+             "x>=1}) are computed by backward propagation to a fixpoint. The real backward analysis (error mode: assertions as sources; good "
+             "mode: F at the exit) on 6 backward-capable domains, with and without the forward invariants, must keep every such state in the "
+             "precondition of its block (membership M1-M4). With forward invariants only states reachable from the entry are required."),
+    "assumptions": _E2_ASSUME,
+    "level_text": "Complete enumeration of the stated program space; co-reachability is decided on the explicit concrete graph.",
+    "level_note": "Horizon-truncated executions only make the oracle smaller (fewer required states), never larger.",
+}
+
 CHECKS["C17"] = {
     "level": "model_checking",
     "technique": "exhaustive enumeration of small CFGs; explicit enumeration of all executions under a per-block visit bound; trace-set equality between the original and the transformed real cfg, plus well-formedness",
